@@ -19,6 +19,39 @@ class NotConcretizable(Exception):
     pass
 
 
+def zstr(v) -> str:
+    """the python text of a z3 string value (z3 prints non-ascii characters as \\u{hex})"""
+    import re
+    return re.sub(r'\\u\{([0-9a-fA-F]+)\}', lambda m: chr(int(m.group(1), 16)), v.as_string())
+
+
+def realize_width(model, world, t, text: str) -> str:
+    """theory `display_width`: the solver treats the display width as an uninterpreted function, so the text of a model
+    string need not have the width the model gives it; rebuild the text with that width (same length, the end-of-track
+    marker kept where it is): narrow characters become wide ones or the other way round"""
+    from .interp import display_width
+    f = world.ufs.get('display_width')
+    if f is None:
+        return text
+    try:
+        want = _int(model, f(t))
+    except NotConcretizable:
+        return text
+    chars = list(text)
+    for i, ch in enumerate(chars):
+        have = display_width(''.join(chars))
+        if have == want:
+            break
+        if ch == '\uff04':
+            continue
+        wide = display_width(ch) == 2
+        if have < want and not wide:
+            chars[i] = '\u6f22'
+        elif have > want and wide:
+            chars[i] = 'x'
+    return ''.join(chars)
+
+
 def _int(model, t):
     v = model.eval(t, model_completion=True)
     if z3.is_int_value(v):
@@ -79,7 +112,7 @@ def val_to_py(model, t, depth=0):
     if name == 'vint':
         return _int(model, Val.i(v))
     if name == 'vstr':
-        return model.eval(Val.s(v), model_completion=True).as_string()
+        return zstr(model.eval(Val.s(v), model_completion=True))
     if name in ('vlist', 'vclist', 'vtup'):
         acc = {'vlist': Val.items, 'vclist': Val.citems, 'vtup': Val.titems}[name]
         items = [val_to_py(model, x, depth + 1) for x in _seq_items(model, acc(v))]
@@ -163,9 +196,14 @@ def concretize_arg(model, world, sortname: str, entry, reg, strings: list):
         if S.is_bool(t):
             return z3.is_true(model.eval(t, model_completion=True))
         if S.is_str(t):
-            return model.eval(t, model_completion=True).as_string()
+            return realize_width(model, world, t, zstr(model.eval(t, model_completion=True)))
         if S.is_seq(t) and t.sort() == S.SeqVal:
             return [val_to_py(model, x) for x in _seq_items(model, t)]
+        if S.is_record(t) and S.record_name(t.sort()) in S.LIST_RECORDS:
+            n = _int(model, S.rec_get(t, 'n'))
+            if n > 200:
+                raise NotConcretizable('list too long')
+            return [concretize_arg(model, world, '', ('term', z3.Select(S.rec_get(t, 'items'), i)), reg, strings) for i in range(n)]
         if S.is_record(t):
             name = S.record_name(t.sort())
             d = {}
@@ -265,6 +303,13 @@ def concrete_env(reg):
 
     env.update(int_ok=int_ok, uint_ok=uint_ok, float_ok=float_ok, implies=lambda a, b: (not a) or b, old=lambda x: x)
     try:
+        from tatsu.util.strtools import unicode_display_len
+        for name, model in getattr(reg, 'extern_funcs', {}).items():
+            if model == 'display_width':
+                env[name] = unicode_display_len
+    except ImportError:
+        pass
+    try:
         from tatsu.input.infos import LineIndexInfo, LineInfo, PosLine
         env.update(PosLine=PosLine, LineInfo=LineInfo, LineIndexInfo=LineIndexInfo)
     except ImportError:
@@ -316,7 +361,12 @@ def run_real(contract, reg, inputs: dict, builders: dict):
                 olds[f'old_{k}'] = v
     env.update(olds)
     try:
-        result = fn(**args)
+        if getattr(contract, 'varparam', ''):
+            rest = args.pop(contract.varparam)
+            result = fn(*args.values(), *rest)
+            args[contract.varparam] = rest
+        else:
+            result = fn(**args)
     except BaseException as e:  # noqa: BLE001
         cname = type(e).__name__
         allowed = list(contract.raises)
